@@ -99,6 +99,12 @@ def gen(rng, tier):
         sc['to_stop'] = {'at': None, 'with_event': True}  # event supplied but never set (ResponsiveQueue path)
     if sc['to_stop'] is not None and qkind in ('queue1', 'queue3') and rng.random() < 0.5:
         sc['get_delays'] = [rng.choice([1.0, 1.5, 2.5])]  # puts stay blocked on the full queue for longer than the 1 s polling interval
+    if sc['to_stop'] is None and sc['rounds'] > 1 and qkind in ('simple', 'queue0') and rng.random() < 0.5:
+        # between two rounds, once every consumer has finished the round and before renew(): suppliers already put the first items
+        # of the next round (the documentation allows it: they become visible only after renew), and / or a late consumer iterates
+        # the finished queue (it must get nothing)
+        sc['early'] = [rng.choice([0, 1, 2]) for _ in range(sc['rounds'] - 1)]
+        sc['late_consumer'] = [rng.random() < 0.6 for _ in range(sc['rounds'] - 1)]
     cfg = swarm(rng, racy=0.2, line=0.4, max_time=600.0)
     return {'scenario': sc, 'sim': cfg}
 
@@ -110,8 +116,14 @@ def shrink(sc):
         if sc['m'] > 1:
             yield dict(sc, m=sc['m'] - 1, items=[r[:-1] for r in sc['items']])
         return
+    if sc.get('early') or sc.get('late_consumer'):
+        yield {k: v for k, v in sc.items() if k not in ('early', 'late_consumer')}
     if sc['rounds'] > 1:
-        yield dict(sc, rounds=sc['rounds'] - 1, items=sc['items'][:-1])
+        sc2 = dict(sc, rounds=sc['rounds'] - 1, items=sc['items'][:-1])
+        for k in ('early', 'late_consumer'):
+            if sc2.get(k):
+                sc2[k] = sc2[k][:-1]
+        yield sc2
     if sc['n'] > 1:
         yield dict(sc, n=sc['n'] - 1)
     if sc['m'] > 1:
@@ -160,14 +172,27 @@ def run(sim, sc):
     stopping = ts is not None and ts['at'] is not None
 
     starts = [threading.Event() for _ in range(rounds)]
+    early = sc.get('early')
+    late = sc.get('late_consumer') or [False] * rounds
+    early_go = [threading.Event() for _ in range(rounds)]
+    early_done = [0] * rounds
+    early_lock = threading.Lock()
 
     def supplier(si):
         try:
             for r in range(rounds):
                 # conservative protocol: a round's items are put only after the previous round was renewed
                 # (the docstring tolerates earlier puts, the property statement does not speak of them)
+                k0 = 0
+                if r > 0 and early:
+                    early_go[r - 1].wait()
+                    k0 = min(early[r - 1], sc['items'][r][si])
+                    for k in range(k0):
+                        iq.put((r, si, k))
+                    with early_lock:
+                        early_done[r - 1] += 1
                 starts[r].wait()
-                for k in range(sc['items'][r][si]):
+                for k in range(k0, sc['items'][r][si]):
                     d = sc['put_delays'][0]
                     if d:
                         time.sleep(d)
@@ -261,6 +286,31 @@ def run(sim, sc):
             sim.violation(sig, {'round': r, 'got': got, 'want': want})
             return {}
         if r + 1 < rounds or True:
+            if r + 1 < rounds and early:
+                early_go[r].set()
+                t_end = sim.now + 100.0
+                while early_done[r] < m and sim.now < t_end:
+                    time.sleep(0.001)
+                if early_done[r] < m:
+                    sim.violation('early-put:put-of-next-round-items-before-renew-blocked', {'round': r, 'done': early_done[r]})
+                    return {}
+                sim.count('early_puts_before_renew')
+            if r + 1 < rounds and late[r]:
+                box = []
+
+                def late_consumer():
+                    try:
+                        box.append(list(iq))
+                    except Exception as e:
+                        box.append(repr(e))
+                lt = threading.Thread(target=late_consumer, name='harness-late-consumer', daemon=True)
+                lt.start()
+                lt.join(50.0)
+                if lt.is_alive() or box != [[]]:
+                    sim.violation('late-consumer:iterating-a-finished-round-again-' + ('blocks' if lt.is_alive() else 'yields-or-raises'),
+                                  {'round': r, 'got': repr(box)[:200]})
+                    return {}
+                sim.count('late_consumer_on_finished_round')
             if r + 1 < rounds:
                 try:
                     iq.renew()
